@@ -193,7 +193,7 @@ func c09RLWE(ctx *core.RunCtx) *c09Scheme {
 		{name: "Trace", op1: []int{vNone}, ks: logNs, needDeg1: true, deg: degOne, call: func(e any, a *rlwe.Ciphertext, b any, k int, o *rlwe.Ciphertext) error {
 			return ev(e).Trace(a, k, o)
 		}},
-		{name: "PartialTracesSum", op1: []int{vNone}, ks: []int{1, 2}, needDeg1: true, deg: degOne, call: func(e any, a *rlwe.Ciphertext, b any, k int, o *rlwe.Ciphertext) error {
+		{name: "PartialTracesSum", op1: []int{vNone}, ks: []int{1, 2}, deg: degSame, call: func(e any, a *rlwe.Ciphertext, b any, k int, o *rlwe.Ciphertext) error {
 			return ev(e).PartialTracesSum(a, k, 5-k, o)
 		}},
 		{name: "PartialTracesSum(n=1)", op1: []int{vNone}, needDeg1: true, deg: degOne, call: func(e any, a *rlwe.Ciphertext, b any, k int, o *rlwe.Ciphertext) error {
